@@ -3,6 +3,7 @@
 package main
 
 import (
+	"sync"
 	"bytes"
 	"fmt"
 	"math/big"
@@ -679,6 +680,21 @@ func genC16(c *Ctx) {
 		if ki%2 == 0 {
 			inplaceBlock()
 		}
+		// the key decoded from a receive buffer that the caller then reuses for the next key (a key object that serves
+		// its encoding from the caller's slice hashes something else): the genuine PoP still verifies, the PoP of the key
+		// now in the buffer does not
+		if key.k.Sign() != 0 {
+			rbuf := append([]byte{}, pkb...)
+			dec, derr := crypto.DecodePublicKey(crypto.BLSBLS12381, rbuf)
+			otherK := keys[(ki+1)%len(keys)]
+			if derr == nil && otherK.k.Sign() != 0 {
+				copy(rbuf, otherK.pk.Encode())
+				otherPop, _ := crypto.BLSGeneratePOP(otherK.sk)
+				c.Case("pop-decoded-key-buffer-reused/genuine", "bls.verify "+ks+" "+hx(hpop)+" "+hx(pop), stable3(func() string { return boolAns(crypto.BLSVerifyPOP(dec, pop)) }))
+				c.Case("pop-decoded-key-buffer-reused/other", "bls.verify "+ks+" "+hx(hpop)+" "+hx(otherPop), stable3(func() string { return boolAns(crypto.BLSVerifyPOP(dec, otherPop)) }))
+				c.Case("pop-decoded-key-buffer-reused/encoding", "expect "+hx(pkb)+" #", hx(dec.Encode()))
+			}
+		}
 		c.Case("pop-verify-honest", "bls.verify "+ks+" "+hx(hpop)+" "+hx(pop), stable3(func() string { return boolAns(crypto.BLSVerifyPOP(key.pk, pop)) }))
 		// wrong key
 		other := keys[(ki+1)%len(keys)]
@@ -870,6 +886,56 @@ func genC17(c *Ctx) {
 			}
 		}()
 		<-done
+	}
+	// overlapping SPOCKVerify calls, each goroutine with its own keys and proofs (scratch memory shared between calls
+	// mixes the proofs of different callers): honest pairs and pairs over different data, against the verdicts alone
+	{
+		const G = 16
+		type job struct {
+			pk1, pk2       crypto.PublicKey
+			a1, a2, b2     crypto.Signature
+			line1, line2   string
+		}
+		jobs := make([]*job, G)
+		for i := range jobs {
+			k1, k2 := c.randScalar(), c.randScalar()
+			s1, s2 := skFromInt(k1), skFromInt(k2)
+			dA, dB := c.bytes(10+i), c.bytes(11+i)
+			j := &job{pk1: s1.PublicKey(), pk2: s2.PublicKey()}
+			j.a1, _ = crypto.SPOCKProve(s1, dA, h)
+			j.a2, _ = crypto.SPOCKProve(s2, dA, h)
+			j.b2, _ = crypto.SPOCKProve(s2, dB, h)
+			j.line1 = fmt.Sprintf("spock 0x%s %s 0x%s %s", k1.Text(16), hx(j.a1), k2.Text(16), hx(j.a2))
+			j.line2 = fmt.Sprintf("spock 0x%s %s 0x%s %s", k1.Text(16), hx(j.a1), k2.Text(16), hx(j.b2))
+			jobs[i] = j
+		}
+		res1 := make([]string, G)
+		res2 := make([]string, G)
+		start := make(chan struct{})
+		var wg sync.WaitGroup
+		for i := 0; i < G; i++ {
+			wg.Add(1)
+			go func(i int) {
+				defer wg.Done()
+				j := jobs[i]
+				<-start
+				res1[i], res2[i] = "true", "false"
+				for rep := 0; rep < 40; rep++ {
+					if v := guard(func() string { return boolAns(crypto.SPOCKVerify(j.pk1, j.a1, j.pk2, j.a2)) }); v != "true" {
+						res1[i] = v
+					}
+					if v := guard(func() string { return boolAns(crypto.SPOCKVerify(j.pk1, j.a1, j.pk2, j.b2)) }); v != "false" {
+						res2[i] = v
+					}
+				}
+			}(i)
+		}
+		close(start)
+		wg.Wait()
+		for i, j := range jobs {
+			c.Case("concurrent/honest", j.line1, res1[i])
+			c.Case("concurrent/other-data", j.line2, res2[i])
+		}
 	}
 	ec := ecSk(ecCurves[1], big.NewInt(5))
 	bk := skFromInt(big.NewInt(9))
